@@ -20,12 +20,14 @@ import (
 // compared with the prefix oracle.
 
 type crashCase struct {
-	Property    string         `json:"property"`
-	Kind        string         `json:"kind"`
-	Opt         kvh.Opt        `json:"options"`
-	Ops         []kvh.Op       `json:"ops"`
-	SelSeed     uint64         `json:"selSeed"`
-	SelPct      int            `json:"selPct"` // percentage of events frozen (100 = all)
+	Property string   `json:"property"`
+	Kind     string   `json:"kind"`
+	Opt      kvh.Opt  `json:"options"`
+	Ops      []kvh.Op `json:"ops"`
+	SelSeed  uint64   `json:"selSeed"`
+	SelPct   int      `json:"selPct"` // percentage of events frozen (100 = all)
+	// ImgCap bounds the cost of one case: once that many images were opened, only a twelfth of the selected events is still frozen (0 = no bound)
+	ImgCap      int            `json:"imgCap,omitempty"`
 	Reader      *kvh.Opt       `json:"reader,omitempty"`
 	MaxCuts     int            `json:"maxCuts"`
 	NoPowerLoss bool           `json:"noPowerLoss,omitempty"`
@@ -80,10 +82,13 @@ func (x *crashExec) selected(k int) bool {
 	if x.c.Only != nil {
 		return k == x.c.Only.Event
 	}
+	h := kvh.Hash64([]byte(fmt.Sprintf("%d|%d", x.c.SelSeed, k)))
+	if x.c.ImgCap > 0 && x.cs.images >= x.c.ImgCap && (h/100)%12 != 0 {
+		return false
+	}
 	if x.c.SelPct >= 100 {
 		return true
 	}
-	h := kvh.Hash64([]byte(fmt.Sprintf("%d|%d", x.c.SelSeed, k)))
 	return int(h%100) < x.c.SelPct
 }
 
